@@ -15,14 +15,14 @@ from .util import VERIF_DIR, iso, parse_iso, repo_path, safe_tzname
 B = datetime(2012, 11, 13, 14, 15, 16)
 
 STRINGS = [
-    ("en", "12 May 2015"), ("en", "02/03/2015"), ("fr", "02/03/2015"), ("fr", "12 mai 2015 à 10:45"), ("fr", "il y a 3 jours"),
+    ("en", "12 May 2015"), ("en", "02/03/2015"), ("en", "not a date at all"), ("fr", "02/03/2015"), ("fr", "12 mai 2015 à 10:45"), ("fr", "il y a 3 jours"),
     ("de", "vor 2 Tagen"), ("de", "3. Januar 2011"), ("es", "hace 2 semanas"), ("ru", "12 мая 2015 г."),
     ("ja", "2015年5月12日"), ("zh", "昨天"), (None, "yesterday"), (None, "12 mai 2015"), (None, "1 hour ago"),
     ("en", "Monday"), ("en", "t 12 May 2015 xyz"), ("fr", "le 3 sept 2015"), ("en", "2015-05-12T10:45:00"),
     ("ar", "١٢ مايو ٢٠١٥"), ("hi", "12 मई 2015"), ("en", "in 2 days"), ("en", "May 2015"),
     (None, "10:45"), ("pt", "há 2 dias"), ("en", "1500000000"), ("fr", "12 février 2015"), ("fr", "12 fevrier 2015"),
     ("es", "3 de sept. de 2014"), ("tr", "12 Mayıs 2015"), ("en", "abc. 12 May 2015"), ("it", "2 giorni fa"),
-    ("en", "not a date at all"), ("hu", "2015. május 12."), ("th", "12 พฤษภาคม 2015"),
+    ("de", "kein Datum"), ("hu", "2015. május 12."), ("th", "12 พฤษภาคม 2015"),
 ]
 SETTINGS = [
     {}, {"DATE_ORDER": "DMY"}, {"DATE_ORDER": "YMD"}, {"DATE_ORDER": "MDY"}, {"NORMALIZE": False}, {"SKIP_TOKENS": ["xyz"]},
@@ -35,6 +35,11 @@ SETTINGS = [
     {"DATE_ORDER": "XYZ"}, {"PREFER_DAY_OF_MONTH": "last"}, {"RETURN_TIME_AS_PERIOD": True},
     # invalid twins of valid variants above: same names, wrongly typed value with the same str()
     {"STRICT_PARSING": "True"}, {"CACHE_SIZE_LIMIT": "2"}, {"RETURN_TIME_AS_PERIOD": "True"},
+    # list-valued settings with several elements, written in an order the library would not choose itself (appended last:
+    # the indices above are referred to by number)
+    {"DEFAULT_LANGUAGES": ["fr", "en"]}, {"DEFAULT_LANGUAGES": ["ru", "de", "en"]},
+    {"SKIP_TOKENS": ["xyz", "t", "abc."]}, {"REQUIRE_PARTS": ["year", "day"]},
+    {"PARSERS": ["absolute-time", "relative-time", "timestamp"]},
 ]
 NOBASE_SETTINGS = [{"__nobase__": True}, {"__nobase__": True, "PREFER_DATES_FROM": "past"},
                    {"__nobase__": True, "PREFER_DATES_FROM": "future"}, {"__nobase__": True, "DATE_ORDER": "DMY"}]
@@ -49,6 +54,8 @@ TEXTS = [
 ]
 SEARCH_SETTINGS = SETTINGS[:12] + [{"PREFER_DATES_FROM": "past"}, {"STRICT_PARSING": True}]
 BAD_LANG = [("xx", "12 May 2015"), ("zz", "yesterday")]
+PLAIN_STRINGS = ["12 mai 2015", "2015-05-12T10:30:45", "2015-05-12", "02/03/2015", "12 мая 2015 г.", "3. Januar 2011", "12 May 2015",
+                 "2015年5月12日", "10/11/2015 10:45", "12 de mayo de 2015", "May 12, 2015", "2015-03-02 00:00:01.5"]
 # strings that are blank / only skipped words after translation (the parsers are entered with nothing to parse) and strings that
 # make a sub-parser fail half-way; each is followed, somewhere later in a history, by the numeric-date "victims" below
 DISTURBERS = [("fr", "le"), ("es", "de"), ("en", "on"), ("sv", "den"), ("ru", "в"), ("nl", "om"), ("fr", "le le"), ("fr", "à"),
@@ -117,6 +124,10 @@ def build_pool(tier):
         for l in ("en", None):
             P.append({"api": "parse", "s": s, "lang": l, "si": 0, "nobase": False, "grp": "tz"})
         P.append({"api": "ddp", "s": s, "lang": "en", "si": 22, "nobase": False, "grp": "tz"})
+    # the everyday call parse(text) with no other argument (the library's shared default parser), over strings of several languages
+    for s in PLAIN_STRINGS:
+        P.append({"api": "parse", "s": s, "lang": None, "si": 0, "nobase": True, "grp": "plain"})
+        P.append({"api": "search", "s": s, "lang": None, "si": 0, "nobase": True, "adl": False, "grp": "plain"})
     for l, s in BAD_LANG:
         P.append({"api": "parse", "s": s, "lang": l, "si": 0, "nobase": False})
         P.append({"api": "ddp", "s": s, "lang": l, "si": 1, "nobase": False})
@@ -180,6 +191,7 @@ def execute(call, insts=None, guard=None):
         extra["region"] = call["region"]
     fm = list(call["formats"]) if call.get("formats") else None
     st0, langs0 = copy.deepcopy(st), copy.deepcopy(langs)
+    fm0, extra0 = copy.deepcopy(fm), copy.deepcopy(extra)
     now = datetime.now(timezone.utc).replace(tzinfo=None) if call["nobase"] else None
     try:
         if api == "parse":
@@ -216,7 +228,7 @@ def execute(call, insts=None, guard=None):
             out = ["ok", None if r is None else [dt_out(r["date_obj"]), r["period"]]]
     except Exception as e:  # noqa: the boundary records whatever escapes
         out = ["exc", type(e).__name__]
-    if guard is not None and (st != st0 or langs != langs0 or type(st) is not type(st0)):
+    if guard is not None and (st != st0 or langs != langs0 or type(st) is not type(st0) or fm != fm0 or extra != extra0):
         guard.append({"call": call, "settings_before": repr(st0), "settings_after": repr(st),
                       "languages_before": langs0, "languages_after": langs})
     return out
